@@ -203,7 +203,7 @@ func parseRawSuite(raw string) (SuiteConfig, error) {
 	dataInput := parts[2]
 
 	// minimal checks
-	if !strings.HasPrefix(parts[0], "OCRA-1") {
+	if parts[0] != "OCRA-1" {
 		return SuiteConfig{}, fmt.Errorf("unsupported OCRA version: %q", parts[0])
 	}
 
